@@ -301,6 +301,86 @@ def r3_symbol_tables(F, res):
                               "diagnostic (duplicate rule definition: ntidx restarts, ProdKind variants collide)" % root, where)
 
 
+def r2c_resolution_complete(F, res, rid="C16-R2"):
+    """The resolution passes look at every production before they answer Ok: the loop over `self.productions` dominates every
+    return (no shortcut that skips the diagnosis of what the later passes unwrap)."""
+    res.rule(rid, "", 0)
+    from . import tbl
+    for fn in ("resolve_inline_terminals_from_productions", "resolve_references"):
+        f = F.fn(GB + fn)
+        if f is None or not f.has_body():
+            res.anchor_lost(rid, fn + " not found")
+            continue
+        tb = mir.TermBuilder(f, F)
+        loops = tbl.loops_of(f)
+        heads = []
+        for h, body in loops.items():
+            # the loop header calls next() on an iterator over self.productions
+            for b in body | {h}:
+                tm = f.blocks[b]["term"]
+                if tm["k"] == "call" and mir.call_matches(callee(tm), "Iterator::next") and tm["args"] and \
+                        mir.has_field(tb.operand(tm["args"][0]), "productions", "GrammarBuilder"):
+                    heads.append(h)
+        rets = [i for i, b in enumerate(f.blocks) if b["term"]["k"] == "return"]
+        if not heads or not rets:
+            res.anchor_lost(rid, "%s: loop over self.productions not recognised" % fn, f.loc())
+            continue
+        outer = max(heads, key=lambda h: len(loops[h]))
+        if all(f.dominates(outer, r) for r in rets):
+            res.ok(rid, "pass-complete/" + fn, f.loc(), "every return is behind the loop over the productions")
+        else:
+            res.violation(rid, "pass-complete/" + fn, "%s can return without having looked at the productions: what it would have "
+                          "diagnosed reaches the later passes unresolved (unwrap of a missing index)" % fn, f.loc())
+
+
+def r3b_dense_indices(F, res, rid="C16-R3"):
+    """Index allocation in the rule loop: a nonterminal index is drawn only when the rule's name has none yet (the typed vectors
+    that are indexed with it have exactly one slot per index: C16-R1 class `typed index`)."""
+    res.rule(rid, "", 0)
+    f = F.fn(GB + "extract_productions_and_symbols")
+    if f is None or not f.has_body():
+        res.anchor_lost(rid, "extract_productions_and_symbols not found")
+        return
+    seen = False
+    bad = None
+    # the rule loop: the outermost loop that contains a call of get_nonterm_idx (the implicit EMPTY/AUG symbols are created
+    # before it, unconditionally, into the still empty table)
+    from . import tbl
+    loops = tbl.loops_of(f)
+    alloc_blocks = [b for b, t2 in f.calls() if callee(t2) == GB + "get_nonterm_idx"]
+    cand = sorted([(h, body) for h, body in loops.items() if any(b in body for b in alloc_blocks)], key=lambda kv: -len(kv[1]))
+    if not cand:
+        res.anchor_lost(rid, "allocation of the nonterminal index in the rule loop not recognised", f.loc())
+        return
+    header = cand[0][0]
+    for p in Sim(f, F, max_paths=300000).run(entry=header):
+        lookups = []      # (value) of `nonterminals.get(name)` / contains_key(name) decisions met so far
+        for e in p.events:
+            if e[0] == "cond":
+                tm, v = e[1], e[2]
+                if tm[0] == "discr" and mir.has_call(tm[1], "::get") and mir.has_field(tm[1], "nonterminals", "GrammarBuilder"):
+                    lookups.append("present" if v == frozenset(["Some"]) else "absent" if v == frozenset(["None"]) else "?")
+                elif is_call_sub(tm, "::contains_key") and mir.has_field(tm, "nonterminals", "GrammarBuilder") and v in (0, 1):
+                    lookups.append("present" if v == 1 else "absent")
+            elif e[0] == "call" and e[1] == GB + "get_nonterm_idx":
+                seen = True
+                if lookups and lookups[-1] == "present":
+                    bad = "%s:%s" % (f.file, e[3])
+                elif not lookups:
+                    # drawn before the name was looked up at all: every rule, known or not, takes an index
+                    ups = [x for x in p.events[p.events.index(e):] if x[0] == "cond" and x[1][0] == "discr" and mir.has_call(x[1][1], "::get")
+                           and mir.has_field(x[1][1], "nonterminals", "GrammarBuilder")]
+                    if ups:
+                        bad = "%s:%s" % (f.file, e[3])
+    if not seen:
+        res.anchor_lost(rid, "allocation of the nonterminal index in the rule loop not recognised", f.loc())
+    elif bad:
+        res.violation(rid, "extract_productions_and_symbols/index-allocation", "a nonterminal index is drawn for a rule whose name "
+                      "already has one: indices stop being dense and the typed vectors indexed by them are too short", bad)
+    else:
+        res.ok(rid, "extract_productions_and_symbols/index-allocation", f.loc(), "get_nonterm_idx() only on the lookup-miss edge")
+
+
 def roots_of(t):
     return {x for x in mir.walk(t) if isinstance(x, tuple) and x[0] in ("param", "var", "upvar")} | \
            {("call", x[1]) for x in mir.calls_in(t) if x[1].startswith("rustemo_compiler::")}
@@ -539,7 +619,9 @@ def run(ctx, res):
     for k in stale:
         res.notes.append("triage row no longer matches any site: " + k)
     r2_diagnostics(F, res)
+    r2c_resolution_complete(F, res)
     r3_symbol_tables(F, res)
+    r3b_dense_indices(F, res)
     r4_identifiers(F, res)
     r4b_check_identifier(F, res)
     r5_recognizer_pairing(F, res)
